@@ -1,6 +1,7 @@
 import XModel.ManagerInv
 import XModel.Acyclic
 import XModel.DfsIter
+import XModel.ManagerTrace
 /-!
 # C02 — one assignment runs exactly the downstream tasks, once each, in dependency order
 Model: `Manager.findTaskids` = `Dfs3.toposort (gOf idx) fuel (startOf idx (chainR p))`, a literal
@@ -66,5 +67,91 @@ theorem C02_acyclic_test_sound (s : MState) (hi : MInv s) (p : Path)
 /-- `run_tasks` executes the list in order and nothing else: it is the left fold of `runTask` -/
 theorem C02_runs_in_order (l1 l2 : List MTask) (s s1 : MState) (h : runTasks s l1 = (s1, none)) :
     runTasks s (l1 ++ l2) = runTasks s1 l2 := runTasks_ok_append l1 l2 s s1 h
+
+/-! ### wrappers of the model-level results (statements as printed by `#check`) -/
+section wrapped
+
+/-- **the execution itself** (expression tasks, plain location, completed call, any legal schedule): the trace of the call is the write of the assigned location followed by exactly one write per task of a duplicate-free list π; π consists exactly of the tasks reachable, along DECLARED edges (a target of one task is a dependency of the next), from a task that declares a dependency on the assigned location or on a container enclosing it; and a task never runs before a triggered task that produces one of its inputs -/
+theorem C02_execution :
+    ∀ (sched : Manager.Sched) (s : Manager.MState),
+      Manager.MInv s →
+        ∀ (p : Manager.Path) (v : Store.Val),
+          (∀ (t : Manager.MTask), t ∈ s.defs → ∃ e, t.kind = Manager.Kind.expr e) →
+            Manager.lookDef s.defs p = none →
+              Manager.ValidSched (Manager.gOf s.idx) (Manager.findTaskids s.idx (Manager.chainR p))
+                  (sched (Manager.findTaskids s.idx (Manager.chainR p))) →
+                ∀ (s' : Manager.MState),
+                  Manager.setValue sched s p v = (s', none) →
+                    ∃ π,
+                      s'.trace = s.trace ++ (true, p) :: List.map (fun id => (true, id)) π ∧
+                        List.Nodup π ∧
+                          (∀ (x : Manager.Path),
+                              x ∈ π ↔
+                                ∃ t,
+                                  t ∈ s.defs ∧
+                                    (∃ d, d ∈ t.deps ∧ 2 ≤ List.length d ∧ d <+: p) ∧ Manager.DeclChain s.defs t.id x) ∧
+                            ∀ (u w : Manager.Path), u ∈ π → w ∈ π → Manager.declEdge s.defs u w → w ≠ u → Dfs3.Before π u w :=
+  @Manager.C02_execution
+
+/-- the same when the schedule is the toposort run on ANY permutation of the start set and ANY adjacency lists with the same neighbour sets: whatever order Python's sets are iterated in -/
+theorem C02_execution_any_order :
+    ∀ (s : Manager.MState),
+      Manager.MInv s →
+        ∀ (p : Manager.Path) (v : Store.Val) (g' : Manager.Path → List Manager.Path) (start' : List Manager.Path),
+          (∀ (u w : Manager.Path), w ∈ g' u ↔ w ∈ Manager.gOf s.idx u) →
+            List.Perm start' (Manager.startOf s.idx (Manager.chainR p)) →
+              (∀ (a b : Manager.Path),
+                  (∃ s0, s0 ∈ Manager.startOf s.idx (Manager.chainR p) ∧ Dfs3.Reach (Manager.gOf s.idx) s0 a) →
+                    a ≠ b → Dfs3.Reach (Manager.gOf s.idx) a b → Dfs3.Reach (Manager.gOf s.idx) b a → False) →
+                (∀ (t : Manager.MTask), t ∈ s.defs → ∃ e, t.kind = Manager.Kind.expr e) →
+                  Manager.lookDef s.defs p = none →
+                    ∀ (s' : Manager.MState),
+                      Manager.setValue (fun x => Dfs3.toposort g' (Manager.fuelOf s.idx) start') s p v = (s', none) →
+                        ∃ π,
+                          s'.trace = s.trace ++ (true, p) :: List.map (fun id => (true, id)) π ∧
+                            List.Nodup π ∧
+                              (∀ (x : Manager.Path),
+                                  x ∈ π ↔
+                                    ∃ t,
+                                      t ∈ s.defs ∧
+                                        (∃ d, d ∈ t.deps ∧ 2 ≤ List.length d ∧ d <+: p) ∧ Manager.DeclChain s.defs t.id x) ∧
+                                ∀ (u w : Manager.Path),
+                                  u ∈ π → w ∈ π → Manager.declEdge s.defs u w → w ≠ u → Dfs3.Before π u w :=
+  @Manager.C02_execution_any_order
+
+/-- the bridge used by C01 / C13 / C18 / C20: every iteration order of the start set and of the adjacency sets yields a legal schedule (`ValidSched`) when the triggered subgraph is acyclic -/
+theorem C02_any_set_order_is_legal :
+    ∀ (s : Manager.MState),
+      Manager.MInv s →
+        ∀ (D : List Manager.Path) (g' : Manager.Path → List Manager.Path) (start' : List Manager.Path),
+          (∀ (u w : Manager.Path), w ∈ g' u ↔ w ∈ Manager.gOf s.idx u) →
+            List.Perm start' (Manager.startOf s.idx D) →
+              Manager.acyclicFrom s.idx (Manager.startOf s.idx D) = true →
+                Manager.ValidSched (Manager.gOf s.idx) (Manager.findTaskids s.idx D)
+                  (Dfs3.toposort g' (Manager.fuelOf s.idx) start') :=
+  @Manager.toposort_perm_valid_decided
+
+/-- the triggered set in terms of the tasks' declared dependencies and targets, not of the internal indices -/
+theorem C02_triggered_iff_declared_chain :
+    ∀ (s : Manager.MState),
+      Manager.MInv s →
+        ∀ (p x : Manager.Path),
+          x ∈ Manager.findTaskids s.idx (Manager.chainR p) ↔
+            ∃ t, t ∈ s.defs ∧ (∃ d, d ∈ t.deps ∧ 2 ≤ List.length d ∧ d <+: p) ∧ Manager.DeclChain s.defs t.id x :=
+  @Manager.findTaskids_assign_iff
+
+/-- a call that raises has run a prefix of the schedule's events and nothing else (all task kinds) -/
+theorem C02_failing_call_runs_a_prefix :
+    ∀ (sched : Manager.Sched) (s : Manager.MState) (p : Manager.Path) (v : Store.Val),
+      Manager.lookDef s.defs p = none →
+        ∀ (s' : Manager.MState) (e : Store.Err),
+          Manager.setValue sched s p v = (s', some e) →
+            ∃ pre,
+              pre <+:
+                  (true, p) :: List.flatMap (Manager.evsAt s.defs) (sched (Manager.findTaskids s.idx (Manager.chainR p))) ∧
+                s'.trace = s.trace ++ pre :=
+  @Manager.setValue_trace_fail
+
+end wrapped
 
 end Properties.C02
